@@ -103,6 +103,7 @@ type Interp struct {
 	splitOf map[string][]Term
 	ptrIDs  map[*Value]int
 	guardsOff bool
+	lockCount map[*Value]int
 }
 
 func (in *Interp) newID() int { in.objID++; return in.objID }
